@@ -321,6 +321,28 @@ def s_indirect(rng, depth, variant=None):
                     + ("branch-before-tie" if v < 2 else "tie-before-branch"))
 
 
+def s_mapkey(rng, depth, variant=None):
+    """a mapping written through a SYMBOLIC key (`set(k, v){ m[k] = v }`) and read through a CONSTANT key by another target
+    (`touch(){ last = m[c] }`) and by the invariant (view `atc()`): both orders of the two target functions, so that from one
+    frontier state either the constant-key hash or the symbolic-key hash is the first one computed."""
+    v = rng.randrange(4) if variant is None else variant
+    c = rng.choice([7, 3, 1 << 100])
+    m = lambda key: map_slot(key, 0)  # noqa: E731
+    fset = TFn("set(uint256 k, uint256 v)", Y + m(X) + ["SSTORE"], domains=[[c, c + 1], [0, 1]])
+    touch = TFn("touch()", m([("push", c)]) + ["SLOAD", 1, "SSTORE"])
+    fns = [touch, fset] if v % 2 == 0 else [fset, touch]
+    if v >= 2:
+        fns.append(TFn("bump()", m([("push", c)]) + ["SLOAD", 1, "ADD"] + m([("push", c)]) + ["SSTORE"]))
+    fns += [TFn("atc()", asm.return_word(m([("push", c)]) + ["SLOAD"]), mutability="view"),
+            TFn("last()", asm.return_word([1, "SLOAD"]), mutability="view")]
+    tgt = Target("MapKey", fns)
+    atc = call_view(FIRST_CREATED, asm.selector("atc()"))
+    last = call_view(FIRST_CREATED, asm.selector("last()"))
+    invs = [Inv("invariant_cell_zero", fail_if(atc + ["ISZERO", "ISZERO"])), Inv("invariant_last_zero", fail_if(last + ["ISZERO", "ISZERO"], "flag")),
+            Inv("invariant_last_ne1", fail_if(asm.eq_const(last, 1))), Inv("invariant_cell_ne5", fail_if(asm.eq_const(atc, 5)))]
+    return Scenario("InvMapKey", [tgt], invs, kind="mapping-symbolic-key-write-constant-key-read:" + ("read-first" if v % 2 == 0 else "write-first"))
+
+
 def s_alias(rng, depth, variant=None):
     """a symbolic address kept in storage (`set(address a)`) and CALLed by two different target functions started from the same
     frontier state (`poke()` sends 0x01, `poke2()` sends 0x02, the first returned word goes to `last`); candidate accounts: A
@@ -392,7 +414,7 @@ def s_symmap(rng, depth, variant=None):
 
 
 TEMPLATES = [s_counter, s_counter, s_setter, s_toggle, s_token, s_token, s_owned, s_owned, s_clock, s_two, s_two, s_two, s_boom,
-             s_symstore, s_symmap, s_assertinc, s_alias, s_indirect]
+             s_symstore, s_symmap, s_assertinc, s_alias, s_indirect, s_mapkey]
 
 
 # ------------------------------------------------------------------------------------------------ halmos output
@@ -761,7 +783,7 @@ def make_item(seed, tmpl_idx, depth, mode=None, variant=None):
     tmpl = TEMPLATES[tmpl_idx % len(TEMPLATES)]
     if mode:
         scn = tmpl(rng, depth, mode)
-    elif variant is not None and tmpl in (s_token, s_owned, s_two, s_symstore, s_symmap, s_assertinc, s_alias, s_indirect):
+    elif variant is not None and tmpl in (s_token, s_owned, s_two, s_symstore, s_symmap, s_assertinc, s_alias, s_indirect, s_mapkey):
         scn = tmpl(rng, depth, variant)
     else:
         scn = tmpl(rng, depth)
@@ -795,6 +817,9 @@ def correspond(ctx):
     # directed: target functions with an assertion-failure path and a mutating path, called repeatedly (probe reports awaited)
     for v in range(4):
         items.append(make_item(5000 + v, TEMPLATES.index(s_assertinc), 2 + v % 2, variant=v))
+    # directed: mapping written through a symbolic key, read through a constant key by a sibling target and by the invariant
+    for v in range(4):
+        items.append(make_item(8000 + v, TEMPLATES.index(s_mapkey), 2, variant=v))
     # directed: two post-states of one call with identical storage terms, told apart only by a constraint on a branched-on argument
     for v in range(4):
         items.append(make_item(7000 + v, TEMPLATES.index(s_indirect), 1 + v % 2, variant=v))
@@ -805,7 +830,7 @@ def correspond(ctx):
     for v in range(6):
         items.append(make_item(4000 + v, TEMPLATES.index(s_symmap), 2 if v < 4 else (1 + v % 2 * 2), variant=v))
     n_directed = len(items)
-    n = ctx.scale(10, 390)
+    n = ctx.scale(6, 390)
     for i in range(n):
         t = i % len(TEMPLATES)
         depth = [1, 2, 2, 0, 2, 1, 3][i % 7]
